@@ -72,6 +72,21 @@ C11ReadWriteSame == t = 8 =>
                 Holds(LET r == Line(8, pg)  w == Line(9, pg) IN
                       (r.m \in 1..3 \/ w.m \in 1..3) => (r.m = w.m /\ r.b = w.b), "C11",
                       "reads and writes of this page go to different storage", [rd |-> Line(8, pg), wr |-> Line(9, pg)])
+\* "all mirrors the mapper declares equivalent (banks $80-$BF versus $00-$3F, the WRAM window in the low 8 KiB of system
+\* banks, SRAM banks $F0+ versus $70+) read and write the same storage in the emulator": for the three NAMED families,
+\* when the REAL LoROM table (table 0) translates both addresses to the same pak address, the emulator backs both with
+\* the same cell as soon as it backs one of them with memory.
+MirrorPartners(a) ==
+  LET bank == a \div 65536  offs == a % 65536 IN
+  (IF bank \in 0..63 \/ bank \in 112..125 THEN {a + 8388608} ELSE {})
+  \cup (IF (bank \in 0..63 \/ bank \in 128..191) /\ offs < 8192 THEN {8257536 + offs} ELSE {})       \* $7E:0000 + offs
+IsMem(s) == s.cls \in {"ROM", "SRAM", "WRAM"}
+C11Mirrors == t \in 8..9 =>
+                \A b \in MirrorPartners(a0) :
+                  Holds(e0.u = 0 \/ Line(t, b \div PageSize).u = 0 \/ LoB(a0) = Unmapped \/ LoB(b) # LoB(a0) \/
+                        ((IsMem(SysT(a0)) \/ IsMem(SysT(b))) => SysT(a0) = SysT(b)),
+                        "C11", "a mirror the LoROM mapper declares equivalent is not backed by the same storage in the emulator",
+                        [addr |-> a0, mirror |-> b, sys |-> SysT(a0), sysMirror |-> SysT(b)])
 \* drift note (not a property): system page table vs the specification's SysMap
 SysDrift == t = 8 => LET r == SysAt(8, a0)  s == SysMap(a0) IN
               (r.cls = s.cls /\ (r.cls \in {"ROM", "SRAM", "WRAM"} => r.cell = s.cell))
